@@ -183,6 +183,8 @@ func c10RunRewriterMem(c *Case) (out string, fails []Fail) {
 		return sb.String()
 	}
 	arena := make([]byte, maxMem+1) // ONE backing buffer for the whole history
+	record := &base.LogRecord{} // ... and ONE record object with ONE Fields slice (records are pooled too)
+	fields := make(base.LogFields, len(mc.schema))
 	var outs []string
 	for ci := range mc.calls {
 		cl := &mc.calls[ci]
@@ -190,13 +192,12 @@ func c10RunRewriterMem(c *Case) (out string, fails []Fail) {
 			arena[i] = 0xA5
 		}
 		copy(arena, cl.mem) // the previous record is released, its buffer reused
-		fields := make(base.LogFields, len(cl.refs))
 		own := make([]string, len(cl.refs)) // the record's values at this moment, independent memory (oracle)
 		for i, r := range cl.refs {
 			fields[i] = util.StringFromBytes(arena[r[0] : r[0]+r[1]])
 			own[i] = string(cl.mem[r[0] : r[0]+r[1]])
 		}
-		record := &base.LogRecord{Fields: fields, RawLength: 1, Unescaped: cl.unescaped}
+		*record = base.LogRecord{Fields: fields, RawLength: 1, Unescaped: cl.unescaped}
 		value := fields[cl.vi]
 		// reference
 		want := ""
